@@ -12,6 +12,7 @@
         in the padded columns).
     The nodal column algebra is layout independent: the nodal columns of the two diagnostic
     states are EQUAL at every resolved node (functional extensionality over the level index). *)
+From Dino Require Import Model.Integrators.
 From Dino Require Import Base.Ops Base.Sums Base.Ord Model.Sigma Model.Implicit Model.PrimEq Model.SHT Model.SHTFast
      Model.Deriv Model.PrimEqFull Model.PrimEqFullFast Gen.DerivExprs Thm.SHT Thm.SHTFast Thm.Deriv Thm.PrimEqFull.
 From Coq Require Import FunctionalExtensionality Zify.
@@ -554,3 +555,283 @@ Section Final.
       rewrite (map_nth (fun t k0 => embed M L (t k0))). apply mrel_embed.
   Qed.
 End Final.
+
+(** ** (4) "and trajectories": every integrator of Model/Integrators.v is a term over
+    (vzero, vadd, vscal, Fx, G, Ginv), so it commutes with ANY map S between two state spaces that
+    is a homomorphism of the vector operations and intertwines the three operators.  No
+    vector-space law is needed.  (Thm/Scaling.v has the analogous theorems for an affine change of
+    scale within ONE space; here there are two operator triples and S = the embedding E.) *)
+Section StepHom.
+  Context {F : Type} {o : Ops F} {V V' : Type} {vo : VOps F V} {vo' : VOps F V'}.
+  Variable S : V -> V'.
+  Hypothesis S_add : forall u v, S (vadd u v) = vadd (S u) (S v).
+  Hypothesis S_scal : forall a u, S (vscal a u) = vscal a (S u).
+  Hypothesis S_zero : S vzero = vzero.
+  Variables (Fx G : V -> V) (Ginv : V -> F -> V) (Fx' G' : V' -> V') (Ginv' : V' -> F -> V').
+  Hypothesis HF : forall u, Fx' (S u) = S (Fx u).
+  Hypothesis HG : forall u, G' (S u) = S (G u).
+  Hypothesis HGinv : forall u eta, Ginv' (S u) eta = S (Ginv u eta).
+
+  Ltac hom := repeat (first [rewrite HF | rewrite HG | rewrite HGinv | rewrite <- S_scal | rewrite <- S_add]).
+
+  Theorem euler_step_hom dt u : euler_step Fx' Ginv' dt (S u) = S (euler_step Fx Ginv dt u).
+  Proof. unfold euler_step. cbv zeta. hom. reflexivity. Qed.
+
+  Theorem cn_rk2_step_hom dt u : cn_rk2_step Fx' G' Ginv' dt (S u) = S (cn_rk2_step Fx G Ginv dt u).
+  Proof. unfold cn_rk2_step. cbv zeta. hom. reflexivity. Qed.
+
+  Theorem leapfrog_step_hom dt alpha p q :
+    leapfrog_step Fx' G' Ginv' dt alpha (S p, S q)
+    = (S (fst (leapfrog_step Fx G Ginv dt alpha (p, q))), S (snd (leapfrog_step Fx G Ginv dt alpha (p, q)))).
+  Proof. unfold leapfrog_step. cbn [fst snd]. hom. reflexivity. Qed.
+
+  Theorem ls_loop_hom dt al be ga h u :
+    ls_loop Fx' G' Ginv' dt al be ga (S h) (S u) = S (ls_loop Fx G Ginv dt al be ga h u).
+  Proof.
+    revert be ga h u. induction al as [|a0 al IH]; intros be ga h u.
+    - destruct be, ga; reflexivity.
+    - destruct be as [|b be]; [destruct ga; reflexivity|].
+      destruct ga as [|g0 ga]; [reflexivity|].
+      destruct al as [|a1 al]; [reflexivity|].
+      cbn [ls_loop]. hom. apply IH.
+  Qed.
+  Theorem ls_step_hom dt al be ga u :
+    ls_step Fx' G' Ginv' dt al be ga (S u) = S (ls_step Fx G Ginv dt al be ga u).
+  Proof. unfold ls_step. rewrite <- ls_loop_hom. now rewrite S_zero. Qed.
+
+  Definition oS (x : option V) : option V' := option_map S x.
+  Lemma wsum_skip_hom cs xs acc : wsum_skip cs (map oS xs) (S acc) = option_map S (wsum_skip cs xs acc).
+  Proof.
+    revert xs acc. induction cs as [|c0 cs IH]; intros xs acc; cbn [wsum_skip]; [reflexivity|].
+    destruct xs as [|x xs]; cbn [map wsum_skip]; [reflexivity|].
+    destruct (nz c0).
+    - destruct x as [v|]; cbn [oS option_map]; [|reflexivity]. hom. apply IH.
+    - apply IH.
+  Qed.
+  Lemma wsum_skip_hom0 cs xs : wsum_skip cs (map oS xs) vzero = option_map S (wsum_skip cs xs vzero).
+  Proof. rewrite <- wsum_skip_hom. now rewrite S_zero. Qed.
+
+  Lemma imex_stages_hom dt y0 b_ex b_im i rex rim fs gs :
+    imex_stages Fx' G' Ginv' dt (S y0) b_ex b_im i rex rim (map oS fs) (map oS gs)
+    = option_map (fun p => (map oS (fst p), map oS (snd p))) (imex_stages Fx G Ginv dt y0 b_ex b_im i rex rim fs gs).
+  Proof.
+    revert i rim fs gs. induction rex as [|re rex IH]; intros i rim fs gs; cbn [imex_stages]; [reflexivity|].
+    destruct rim as [|ri rim]; [reflexivity|].
+    rewrite !wsum_skip_hom0.
+    destruct (wsum_skip re fs vzero) as [ex|]; cbn [option_map]; [|reflexivity].
+    destruct (wsum_skip ri gs vzero) as [im|]; cbn [option_map]; [|reflexivity].
+    hom.
+    set (Y := Ginv (vadd (vadd y0 (vscal dt ex)) (vscal dt im)) (dt * nth i ri 0)).
+    replace (map oS fs ++ [if needed i rex b_ex then Some (S (Fx Y)) else None])
+      with (map oS (fs ++ [if needed i rex b_ex then Some (Fx Y) else None]))
+      by (rewrite map_app; cbn [map]; destruct (needed i rex b_ex); reflexivity).
+    replace (map oS gs ++ [if needed i rim b_im then Some (S (G Y)) else None])
+      with (map oS (gs ++ [if needed i rim b_im then Some (G Y) else None]))
+      by (rewrite map_app; cbn [map]; destruct (needed i rim b_im); reflexivity).
+    apply IH.
+  Qed.
+
+  Theorem imex_step_hom dt a_ex a_im b_ex b_im y0 :
+    imex_step Fx' G' Ginv' dt a_ex a_im b_ex b_im (S y0) = option_map S (imex_step Fx G Ginv dt a_ex a_im b_ex b_im y0).
+  Proof.
+    unfold imex_step.
+    pose proof (imex_stages_hom dt y0 b_ex b_im 1 a_ex a_im [Some (Fx y0)] [Some (G y0)]) as H.
+    cbn [map oS option_map] in H. rewrite HF, HG, H. clear H.
+    destruct (imex_stages Fx G Ginv dt y0 b_ex b_im 1 a_ex a_im [Some (Fx y0)] [Some (G y0)]) as [[fs gs]|];
+      cbn [option_map fst snd]; [|reflexivity].
+    rewrite !wsum_skip_hom0.
+    destruct (wsum_skip b_ex fs vzero) as [ex|]; cbn [option_map]; [|reflexivity].
+    destruct (wsum_skip b_im gs vzero) as [im|]; cbn [option_map]; [|reflexivity].
+    hom. reflexivity.
+  Qed.
+End StepHom.
+
+(** ** (5) the instance: whole-state primitive equations, S = E.
+    The three model operators are composed with the normal forms [norm_real] / [norm_fast] on the
+    OUTPUT side only (so that the in-range equalities of (3) become equalities of states); on the
+    input side they are applied to the states as they are. *)
+Section WholeStateSteps.
+  Context {F : Type} {o : Ops F} {Fc : FieldC o}.
+  Add Field FFpfs : (field_c : FieldTh o).
+  Variable g : @HGrid F.
+  Variables (Mh Lf If Jf : nat) (stacked rev : bool).
+  Variable ff : nat -> nat -> F.
+  Variable pf : nat -> nat -> nat -> F.
+  Variable wf : nat -> F.
+  Variables af bf : nat -> nat -> F.
+  Variables sec2f sinf : nat -> F.
+  Local Notation M := (hM g).
+  Local Notation L := (hL g).
+  Local Notation q := (fast_grid_of g Mh Lf If Jf stacked rev ff pf wf af bf sec2f sinf).
+  Hypothesis HM : (1 <= M)%nat.
+  Hypothesis HMh : (M <= Mh)%nat.
+  Hypothesis HLf : (L <= Lf)%nat.
+  Hypothesis HIf : (hI g <= If)%nat.
+  Hypothesis HJf : (hJ g <= Jf)%nat.
+  Hypothesis T : tables_related M L (hI g) (hJ g) Mh Lf If Jf (hf g) (hp g) (hw g) ff pf wf.
+  Hypothesis DT : dtables_related M L Lf af bf (ha g) (hb g).
+  Hypothesis H_sec2 : forall j, (j < hJ g)%nat -> sec2f j = hsec2 g j.
+  Hypothesis H_sin : forall j, (j < hJ g)%nat -> sinf j = hsin g j.
+  Variable c : @PEcfg F.
+  Variable grav : F.
+  Variable orog : nat -> nat -> F.
+  Variable invt : F -> nat -> @Mat F.        (* np.linalg.inv(implicit_matrix) per step size *)
+  Hypothesis HK : (0 < cK c)%nat.            (* at least one level *)
+  Local Notation Kc := (cK c).
+  Local Notation ES := (embed_state M L).
+
+  Definition FxR (u : @State F) : @State F := norm_real Kc M L (explicit_terms_full g c grav orog u).
+  Definition GR (u : @State F) : @State F := norm_real Kc M L (implicit_terms_full g c u).
+  Definition GinvR (u : @State F) (eta : F) : @State F := norm_real Kc M L (implicit_inverse_full g c eta (invt eta) u).
+  Definition FxF (y : @State F) : @State F := norm_fast Kc M L (explicit_terms_full_fast q c grav (embed M L orog) y).
+  Definition GF (y : @State F) : @State F := norm_fast Kc M L (implicit_terms_full_fast q c y).
+  Definition GinvF (y : @State F) (eta : F) : @State F := norm_fast Kc M L (implicit_inverse_full_fast q c eta (invt eta) y).
+
+  (** E is linear *)
+  Lemma embed_add (x y : nat -> nat -> F) k l :
+    embed M L (fun a l => x a l + y a l) k l = embed M L x k l + embed M L y k l.
+  Proof. unfold embed. destruct ((k <? 2 * M) && (l <? L)); [destruct k as [|[|k]]|]; ring. Qed.
+  Lemma embed_scal t (x : nat -> nat -> F) k l :
+    embed M L (fun a l => t * x a l) k l = t * embed M L x k l.
+  Proof. unfold embed. destruct ((k <? 2 * M) && (l <? L)); [destruct k as [|[|k]]|]; ring. Qed.
+  Lemma embed_zero k l : embed M L (fun _ _ => 0) k l = 0.
+  Proof. unfold embed. destruct ((k <? 2 * M) && (l <? L)); [destruct k as [|[|k]]|]; reflexivity. Qed.
+
+  Lemma ES_add u v : ES (vadd (VOps := PwOps) u v) = vadd (VOps := PwOps) (ES u) (ES v).
+  Proof.
+    unfold embed_state. cbn [vadd PwOps s_vort s_div s_temp s_lnps s_tr map]. f_equal;
+      repeat (apply functional_extensionality; intro); apply embed_add.
+  Qed.
+  Lemma ES_scal t u : ES (vscal (VOps := PwOps) t u) = vscal (VOps := PwOps) t (ES u).
+  Proof.
+    unfold embed_state. cbn [vscal PwOps s_vort s_div s_temp s_lnps s_tr map]. f_equal;
+      repeat (apply functional_extensionality; intro); apply embed_scal.
+  Qed.
+  Lemma ES_zero : ES (vzero (VOps := PwOps)) = vzero (VOps := PwOps).
+  Proof.
+    unfold embed_state. cbn [vzero PwOps s_vort s_div s_temp s_lnps s_tr map]. unfold zero3. f_equal;
+      repeat (apply functional_extensionality; intro); apply embed_zero.
+  Qed.
+
+  Lemma inr3_elim K0 R0 L0 k a l : inr3 K0 R0 L0 k a l = true -> (k < K0)%nat /\ (a < R0)%nat /\ (l < L0)%nat.
+  Proof.
+    unfold inr3. intros H. apply andb_prop in H. destruct H as [H Hl]. apply andb_prop in H. destruct H as [Hk Ha].
+    apply Nat.ltb_lt in Hk, Ha, Hl. auto.
+  Qed.
+  Lemma inr2_elim R0 L0 a l : inr2 R0 L0 a l = true -> (a < R0)%nat /\ (l < L0)%nat.
+  Proof. unfold inr2. intros H. apply andb_prop in H. destruct H as [Ha Hl]. apply Nat.ltb_lt in Ha, Hl. auto. Qed.
+
+  Lemma norm_real_ext (s1 s2 : @State F) :
+    (forall k a l, (k < Kc)%nat -> (a < 2 * M - 1)%nat -> (l < L)%nat ->
+       s_vort s1 k a l = s_vort s2 k a l /\ s_div s1 k a l = s_div s2 k a l /\ s_temp s1 k a l = s_temp s2 k a l) ->
+    (forall a l, (a < 2 * M - 1)%nat -> (l < L)%nat -> s_lnps s1 a l = s_lnps s2 a l) ->
+    norm_real Kc M L s1 = norm_real Kc M L s2.
+  Proof.
+    intros H3 H2. unfold norm_real. cbv zeta. f_equal.
+    1-3: do 3 (apply functional_extensionality; intro); unfold cl3;
+      destruct (inr3 Kc (2 * M - 1) L x x0 x1) eqn:E; [|reflexivity];
+      destruct (inr3_elim _ _ _ _ _ _ E) as (Hk & Ha & Hl); apply (H3 x x0 x1 Hk Ha Hl).
+    do 2 (apply functional_extensionality; intro). unfold cl2.
+    destruct (inr2 (2 * M - 1) L x x0) eqn:E; [|reflexivity].
+    destruct (inr2_elim _ _ _ _ E) as (Ha & Hl). now apply H2.
+  Qed.
+
+  (** the three intertwining relations = the equivalence theorems of (3) *)
+  Lemma ws_HF u : FxF (ES u) = ES (FxR u).
+  Proof.
+    unfold FxF, FxR, norm_fast. f_equal. apply norm_real_ext.
+    - intros k a l Hk Ha Hl.
+      destruct (explicit_terms_full_fast_equiv g Mh Lf If Jf stacked rev ff pf wf af bf sec2f sinf
+                  HM HMh HLf HIf HJf T DT H_sec2 H_sin c grav (embed M L orog) orog (mrel_embed M L orog)
+                  (ES u) u (srel_embed_state g u) k Hk) as (E1 & E2 & E3 & _).
+      cbn [proj_state s_vort s_div s_temp]. unfold proj. split; [|split]; [apply E1 | apply E2 | apply E3]; assumption.
+    - intros a l Ha Hl.
+      destruct (explicit_terms_full_fast_equiv g Mh Lf If Jf stacked rev ff pf wf af bf sec2f sinf
+                  HM HMh HLf HIf HJf T DT H_sec2 H_sin c grav (embed M L orog) orog (mrel_embed M L orog)
+                  (ES u) u (srel_embed_state g u) 0%nat HK) as (_ & _ & _ & E4 & _).
+      cbn [proj_state s_lnps]. unfold proj. now apply E4.
+  Qed.
+
+  Lemma ws_HG u : GF (ES u) = ES (GR u).
+  Proof.
+    unfold GF, GR, norm_fast. f_equal. apply norm_real_ext.
+    - intros k a l Hk Ha Hl.
+      destruct (implicit_terms_full_fast_equiv g Mh Lf If Jf stacked rev ff pf wf af bf sec2f sinf c
+                  (ES u) u (srel_embed_state g u) k) as (E1 & E2 & E3 & _).
+      cbn [proj_state s_vort s_div s_temp]. unfold proj. split; [|split]; [apply E1 | apply E2 | apply E3]; assumption.
+    - intros a l Ha Hl.
+      destruct (implicit_terms_full_fast_equiv g Mh Lf If Jf stacked rev ff pf wf af bf sec2f sinf c
+                  (ES u) u (srel_embed_state g u) 0%nat) as (_ & _ & _ & E4).
+      cbn [proj_state s_lnps]. unfold proj. now apply E4.
+  Qed.
+
+  Lemma ws_HGinv u eta : GinvF (ES u) eta = ES (GinvR u eta).
+  Proof.
+    unfold GinvF, GinvR, norm_fast. f_equal. apply norm_real_ext.
+    - intros k a l Hk Ha Hl.
+      destruct (implicit_inverse_full_fast_equiv g Mh Lf If Jf stacked rev ff pf wf af bf sec2f sinf c
+                  (ES u) u (srel_embed_state g u) eta (invt eta) k) as (E1 & E2 & E3 & _).
+      cbn [proj_state s_vort s_div s_temp]. unfold proj. split; [|split]; [apply E1 | apply E2 | apply E3]; assumption.
+    - intros a l Ha Hl.
+      destruct (implicit_inverse_full_fast_equiv g Mh Lf If Jf stacked rev ff pf wf af bf sec2f sinf c
+                  (ES u) u (srel_embed_state g u) eta (invt eta) 0%nat) as (_ & _ & _ & E4 & _).
+      cbn [proj_state s_lnps]. unfold proj. now apply E4.
+  Qed.
+
+  (** *** one step of every integrator on the fast whole-state model, started from E u, is E of the reference step *)
+  Theorem whole_state_step_equiv dt alpha al be ga a_ex a_im b_ex b_im u p0 q0 :
+    euler_step (vo := PwOps) FxF GinvF dt (ES u) = ES (euler_step (vo := PwOps) FxR GinvR dt u) /\
+    cn_rk2_step (vo := PwOps) FxF GF GinvF dt (ES u) = ES (cn_rk2_step (vo := PwOps) FxR GR GinvR dt u) /\
+    ls_step (vo := PwOps) FxF GF GinvF dt al be ga (ES u) = ES (ls_step (vo := PwOps) FxR GR GinvR dt al be ga u) /\
+    imex_step (vo := PwOps) FxF GF GinvF dt a_ex a_im b_ex b_im (ES u)
+    = option_map ES (imex_step (vo := PwOps) FxR GR GinvR dt a_ex a_im b_ex b_im u) /\
+    leapfrog_step (vo := PwOps) FxF GF GinvF dt alpha (ES p0, ES q0)
+    = (ES (fst (leapfrog_step (vo := PwOps) FxR GR GinvR dt alpha (p0, q0))),
+       ES (snd (leapfrog_step (vo := PwOps) FxR GR GinvR dt alpha (p0, q0)))).
+  Proof.
+    split; [|split; [|split; [|split]]].
+    - exact (euler_step_hom (vo := PwOps) (vo' := PwOps) ES ES_add ES_scal FxR GinvR FxF GinvF ws_HF ws_HGinv dt u).
+    - exact (cn_rk2_step_hom (vo := PwOps) (vo' := PwOps) ES ES_add ES_scal FxR GR GinvR FxF GF GinvF ws_HF ws_HG ws_HGinv dt u).
+    - exact (ls_step_hom (vo := PwOps) (vo' := PwOps) ES ES_add ES_scal ES_zero FxR GR GinvR FxF GF GinvF ws_HF ws_HG ws_HGinv dt al be ga u).
+    - exact (imex_step_hom (vo := PwOps) (vo' := PwOps) ES ES_add ES_scal ES_zero FxR GR GinvR FxF GF GinvF ws_HF ws_HG ws_HGinv
+               dt a_ex a_im b_ex b_im u).
+    - exact (leapfrog_step_hom (vo := PwOps) (vo' := PwOps) ES ES_add ES_scal FxR GR GinvR FxF GF GinvF ws_HF ws_HG ws_HGinv dt alpha p0 q0).
+  Qed.
+
+  (** spectral filters (a factor per total wavenumber) commute with E *)
+  Lemma lfilter_equiv (sigmaf sigma : nat -> F) u w :
+    (forall l, (l < L)%nat -> sigmaf l = sigma l) ->
+    lfilter sigmaf (ES u) (ES w) = ES (lfilter sigma u w).
+  Proof.
+    intros Hs. unfold lfilter, embed_state. cbn [s_vort s_div s_temp s_lnps s_tr map]. f_equal;
+      repeat (apply functional_extensionality; intro); unfold embed;
+      match goal with |- context [(?k <? 2 * M) && (?l <? L)] =>
+        destruct (Nat.ltb_spec l L) as [Hl|Hl]; [rewrite (Hs l Hl)|]; destruct (k <? 2 * M); cbn [andb];
+        try (destruct k as [|[|?]]); ring end.
+  Qed.
+
+  (** any number of filtered steps *)
+  Theorem whole_state_trajectory_equiv (step step' : @State F -> @State F) (fl fl' : list (@State F -> @State F -> @State F)) :
+    (forall u, step' (ES u) = ES (step u)) ->
+    Forall2 (fun f' f => forall u w, f' (ES u) (ES w) = ES (f u w)) fl' fl ->
+    forall n u, Nat.iter n (filtered_step step' fl') (ES u) = ES (Nat.iter n (filtered_step step fl) u).
+  Proof.
+    intros Hs Hf.
+    assert (A : forall u, filtered_step step' fl' (ES u) = ES (filtered_step step fl u)).
+    { intros u. unfold filtered_step. rewrite Hs. generalize (step u) as w.
+      induction Hf as [|f' f fl' fl Hff Hf IH]; intros w; cbn [apply_filters_s]; [reflexivity|].
+      rewrite Hff. apply IH. }
+    induction n as [|n IH]; intros u; [reflexivity|].
+    change (Nat.iter (S n) (filtered_step step' fl') (ES u)) with (filtered_step step' fl' (Nat.iter n (filtered_step step' fl') (ES u))).
+    change (Nat.iter (S n) (filtered_step step fl) u) with (filtered_step step fl (Nat.iter n (filtered_step step fl) u)).
+    rewrite IH. apply A.
+  Qed.
+
+  (** E is injective on normal forms: the fast trajectory determines the reference one *)
+  Lemma proj_embed_state (s : @State F) : norm_real Kc M L (proj_state (ES s)) = norm_real Kc M L s.
+  Proof.
+    apply norm_real_ext.
+    - intros k a l Hk Ha Hl. cbn [proj_state embed_state s_vort s_div s_temp]. now rewrite !proj_embed.
+    - intros a l Ha Hl. cbn [proj_state embed_state s_lnps]. now apply proj_embed.
+  Qed.
+End WholeStateSteps.
